@@ -74,9 +74,10 @@ func (p *PubComp) fill(b []byte, i int) int {
 func (p *PubComp) variableHeader(b []byte, i int) int {
 	n := i
 	i += p.packetID.fill(b, i)
-	i += p.reasonCode.fillOpt(b, i)
-
 	propl := vbint(p.properties(_LEN, 0))
+	if p.reasonCode > 0 || propl > 0 {
+		i += p.reasonCode.fill(b, i)
+	}
 	if propl > 0 {
 		i += propl.fill(b, i)   // Properties len
 		i += p.properties(b, i) // Properties
